@@ -336,6 +336,14 @@ Section CurveLaws.
         rewrite <- (enc1_fun a va vr Ha Hr) in He. exact He.
     Qed.
 
+    Theorem g1_comm (add1_comm : forall a b, add1 a b = add1 b a) a b va vb : enc1 a va -> enc1 b vb ->
+      exists vr, ex BADD [BG1 va; BG1 vb] = Ok (BG1 vr) /\ ex BADD [BG1 vb; BG1 va] = Ok (BG1 vr).
+    Proof.
+      intros Ha Hb. destruct (add1_lifted a b va vb Ha Hb) as (vr & Hr & Er).
+      destruct (add1_lifted b a vb va Hb Ha) as (vr' & Hr' & Er').
+      rewrite add1_comm in Hr'. rewrite (enc1_fun _ vr' vr Hr' Hr) in Er'. exists vr. split; assumption.
+    Qed.
+
     Theorem g1_inverse a va vz : enc1 a va -> enc1 zero1 vz ->
       exists vn, ex BNEG [BG1 va] = Ok (BG1 vn) /\ ex BADD [BG1 va; BG1 vn] = Ok (BG1 vz).
     Proof.
@@ -407,6 +415,14 @@ Section CurveLaws.
         rewrite <- (enc2_fun a va vr Ha Hr) in He. exact He.
       - destruct (add2_lifted a zero2 va vz Ha Hz) as (vr & Hr & He). rewrite add2_zero_r in Hr.
         rewrite <- (enc2_fun a va vr Ha Hr) in He. exact He.
+    Qed.
+
+    Theorem g2_comm (add2_comm : forall a b, add2 a b = add2 b a) a b va vb : enc2 a va -> enc2 b vb ->
+      exists vr, ex BADD [BG2 va; BG2 vb] = Ok (BG2 vr) /\ ex BADD [BG2 vb; BG2 va] = Ok (BG2 vr).
+    Proof.
+      intros Ha Hb. destruct (add2_lifted a b va vb Ha Hb) as (vr & Hr & Er).
+      destruct (add2_lifted b a vb va Hb Ha) as (vr' & Hr' & Er').
+      rewrite add2_comm in Hr'. rewrite (enc2_fun _ vr' vr Hr' Hr) in Er'. exists vr. split; assumption.
     Qed.
 
     Theorem g2_inverse a va vz : enc2 a va -> enc2 zero2 vz ->
